@@ -63,6 +63,25 @@ def _plan_for(check, vseed, i, tier):
     return plan
 
 
+def _pinned_plans(check):
+    """Committed plans that are executed in every batch in addition to the seeded ones (negative run
+    indices): the minimised histories of the recorded known findings and of repaired defects, so that a
+    listed finding is reported by every run and a repaired defect that returns is seen whatever the seed."""
+    d = os.path.join(VERIF, 'pinned')
+    out = {}
+    if os.path.isdir(d):
+        for k, fn_ in enumerate(sorted(f for f in os.listdir(d) if f.startswith(check.pid + '-') and f.endswith('.json'))):
+            with open(os.path.join(d, fn_)) as f:
+                doc = json.load(f)
+            plan = doc.get('plan', doc)
+            plan['property'] = check.pid
+            plan.setdefault('run_seed', 0)
+            plan['run_index'] = -(k + 1)
+            plan['pinned'] = fn_
+            out[-(k + 1)] = plan
+    return out
+
+
 def _exec(check, plan, keep=False):
     res = check.run(plan, keep=keep)
     res.setdefault('viol', [])
@@ -83,8 +102,11 @@ def _load_findings():
         return json.load(f)
 
 
+REPLAY_DIR = [None]
+
+
 def _replay_path(pid, inv, seed):
-    d = os.path.join(VERIF, 'replays')
+    d = REPLAY_DIR[0] or os.path.join(VERIF, 'replays')
     os.makedirs(d, exist_ok=True)
     import hashlib
     safe = ''.join(c if c.isalnum() or c in '-_' else '_' for c in inv)
@@ -127,7 +149,9 @@ def main(check, argv=None):
     ap.add_argument('--no-evidence', action='store_true')
     ap.add_argument('--no-selftest', action='store_true')
     ap.add_argument('--first', type=int, default=0, help='first run index')
+    ap.add_argument('--replay-dir', help='write replay files here instead of /verif/replays (self-tests, soaks)')
     args = ap.parse_args(argv)
+    REPLAY_DIR[0] = args.replay_dir
     vseed = int(os.environ.get('VERIF_SEED', '0') or 0)
     tier = args.tier if args.tier in ('quick', 'thorough') else 'quick'
 
@@ -153,7 +177,7 @@ def main(check, argv=None):
         return 0
 
     t0 = time.time()
-    rdir = os.path.join(VERIF, 'replays')
+    rdir = args.replay_dir or os.path.join(VERIF, 'replays')
     if os.path.isdir(rdir):     # replay files of earlier batches of this check are stale
         for fn_ in os.listdir(rdir):
             if fn_.startswith(check.pid + '-'):
@@ -171,9 +195,22 @@ def main(check, argv=None):
             r['sample'] = plan
         return r
 
+    pinned = _pinned_plans(check) if not args.first else {}
+
+    def plan_of(i):
+        return pinned[i] if i < 0 else _plan_for(check, vseed, i, tier)
+
     results = pool.run_batch(indices, fn, nworkers=args.workers, run_cap=b.get('run_cap', 60.0),
                              batch_cap=tcap)
     batch_wall = time.time() - t0
+    if pinned:
+        def fnp(i):
+            r = _exec(check, pinned[i])
+            r.pop('events', None)
+            return r
+        results.update(pool.run_batch(sorted(pinned), fnp, nworkers=args.workers, run_cap=b.get('run_cap', 60.0),
+                                      batch_cap=max(60.0, tcap)))
+        indices = list(indices) + sorted(pinned)
 
     stats, faults, probes = Counter(), Counter(), Counter()
     digests, shapes, nontrivial = set(), set(), set()
@@ -210,7 +247,7 @@ def main(check, argv=None):
     det = {'checked': 0, 'mismatch_inprocess': 0, 'mismatch_fresh': 0}
     det_viol = []
     if not args.no_selftest and done:
-        st = [i for i in indices if 'digest' in results[i]][:b.get('selftest', 8)]
+        st = [i for i in indices if i >= 0 and 'digest' in results[i]][:b.get('selftest', 8)]
         again = pool.run_batch(st, fn, nworkers=3, run_cap=b.get('run_cap', 60.0), batch_cap=tcap)
         for i in st:
             det['checked'] += 1
@@ -259,7 +296,7 @@ def main(check, argv=None):
     known = {(f['property'], f['signature']): f for f in kf.get('findings', [])}
     groups = {}
     for i, r in violating:
-        plan = _plan_for(check, vseed, i, tier)
+        plan = plan_of(i)
         for v in r['viol']:
             sig = check.signature(plan, v)
             groups.setdefault((v['inv'], sig), []).append((i, v))
@@ -270,7 +307,7 @@ def main(check, argv=None):
     n_viol, n_known, reports = 0, 0, []
     for (inv, sig), members in sorted(groups.items()):
         i, v = members[0]
-        plan0 = _plan_for(check, vseed, i, tier)
+        plan0 = plan_of(i)
         is_known = (check.pid, sig) in known
         if inv == 'determinism':
             path = _replay_path(check.pid, inv, plan0['run_seed'])
